@@ -8,12 +8,12 @@ ROOT = os.path.dirname(HERE)
 # property -> (level category, technique, level text, level note, design ref)
 CHECKS = {
     "C20": ("exploration",
-            "Go race detector over concurrent workloads (reports with a gmsm frame are violations), equality of each concurrent result with its sequential counterpart, porcupine linearizability checks of recorded histories, stream-consistency monitors for concurrent Read/Write/Close and for duplex traffic with an injected record fault",
+            "Go race detector over concurrent workloads (reports with a gmsm frame are violations), equality of each concurrent result with its sequential counterpart, porcupine linearizability checks of recorded histories, stream-consistency monitors for concurrent Read/Write/Close and for duplex traffic (multi-record writes) with an injected record fault, concurrent verification on pools holding same-name CAs, ticket decryption during key-list rotation",
             "The worker is built with -race and runs: package-level operations on separate data from 2..32 goroutines (sign/verify/encrypt/decrypt/key exchange, SM3, SM4 helpers, GCM, parse + chain verification on shared pools, PKCS#7) compared with sequential results; one shared cipher.Block under mixed Encrypt/Decrypt vs the reference; first use of the curve from 16 goroutines in fresh child processes; one Config serving up to 48 simultaneous handshakes with concurrent ticket-key rotation, shared session cache and pools; porcupine on the LRU session cache and the ticket-key register (many short histories, unique values, 10 s checker timeout = inconclusive); one connection with concurrent tagged writers, a reader and Close at a seeded instant (per-writer FIFO, no duplication, no loss before close, all calls return, Write after Close errors).",
             "Trusted: Go race detector, porcupine v1.3.0, sequential results and /verif/ref as oracles. A clean run speaks only for the interleavings produced (evidence lists goroutine counts and histories).",
             "DESIGN.md §5 C20"),
     "C08": ("fault_enumeration",
-            "attacker catalogue executed against live endpoints: misconfigured genuine stacks, a scripted reference peer without the identity, a record-level man in the middle rewriting the cleartext flight, resumption-bypass scenarios, Config.Clone copies; completion/panic monitors",
+            "attacker catalogue executed against live endpoints: misconfigured genuine stacks, a scripted reference peer without the identity, a record-level man in the middle rewriting the cleartext flight, resumption-bypass scenarios, Config.Clone copies, same-name and grafted-key forgeries on long-lived pools, look-alike server names, redirected reconnects after cache eviction; completion/panic monitors",
             "(1) gmtls servers/clients holding genuine certificates with wrong keys, untrusted/expired/not-yet-valid/wrong-name/swapped/RSA/P-256 certificates, client certificates with wrong key/untrusted/expired under each ClientAuth policy; (2) a well-formed reference peer whose ServerKeyExchange is over other randoms / another encryption certificate / by another key / replayed, whose CertificateVerify is by another key / over another transcript / omitted / replayed, wrong Finished, pre-master under another key; (3) a man in the middle flipping every byte (sampled for long messages in quick) of every cleartext handshake message and applying structured rewrites (suite downgrade, randoms, session id, certificate swap/drop/append, drop/duplicate message). The attacked side must return an error; after a real byte change never both sides complete; no panic on the attacked side. Both GM suites, client-auth policies, plus TLS 1.2.",
             "Trusted: ground-truth PKI, /verif/ref TLCP peer. A misconfigured attacker-side endpoint crashing on its own configuration is not judged.",
             "DESIGN.md §5 C08"),
@@ -23,17 +23,17 @@ CHECKS = {
             "Trusted: resumption model from the property text, /verif/ref TLCP decoder. 'may' connections are not judged on DidResume.",
             "DESIGN.md §5 C16"),
     "C06": ("exploration",
-            "configuration-matrix workload with a policy-model oracle, agreement / prefix-stream monitors, a passive reference GM/T 0024 decoder over the tapped wire and key log, crypto/tls as independent peer (with client certificates), seeded write plans, a second connection per ticket-enabled configuration, Config.Clone copies",
+            "configuration-matrix workload with a policy-model oracle, agreement / prefix-stream monitors, a passive reference GM/T 0024 decoder over the tapped wire and key log, crypto/tls as independent peer (with client certificates), seeded write plans, a second connection per ticket-enabled configuration, Config.Clone copies, every row of the suite table, application-protocol lists and certificate selection by server name",
             "Runs gmtls client/server pairs over an in-memory tapped transport for the matrix server mode x client kind x suites x preference x ClientAuth x client certificate x certificate source x tickets (GM part full-factorial in thorough), plus TLS 1.0-1.2 suites against crypto/tls in both roles; a policy model from the property text says must-complete / must-fail / unspecified; both ends must agree on ConnectionState and ExportKeyingMaterial; position-tagged payloads (to 200 KiB, seeded fragment plans, both directions concurrently) must arrive as exact prefixes; every GMSSL session is re-derived by the reference decoder (record MAC/tag under index-as-sequence-number, Finished values, ServerKeyExchange signature, pre-master recovery, plaintext equality).",
             "Trusted: policy model, /verif/ref TLCP decoder (self-consistent reading of GM/T 0024 over ref SM2/SM3/SM4, not certified), Go crypto/tls. ECDHE-SM2 completion is unspecified.",
             "DESIGN.md §5 C06"),
     "C07": ("fault_enumeration",
-            "fault catalogue applied by an interposing transport to live GMSSL sessions with prefix-stream / sticky-error / exact-byte-count monitors, exhaustive white-box bit flips through the halfConn hook, reference-built padding cases, passive nonce monitors",
+            "fault catalogue applied by an interposing transport to live GMSSL sessions with prefix-stream / sticky-error / exact-byte-count monitors, exhaustive white-box bit flips through the halfConn hook, reference-built padding cases, passive nonce monitors, long sessions and long white-box runs across sequence-number carries with far replays, the same fault catalogue on the standard-TLS rows of the suite table (control-session-calibrated positions)",
             "One fault (bit flip per region, truncation/extension, swap, duplicate, drop, cross-direction and cross-connection injection, header rewrites, early end of stream) is applied to one application record of a real session; the receiver must deliver exactly the bytes of the records before the affected one (count taken from the reference decoder), return a fatal sticky error and never a wrong byte. White box: every bit of every record for payload sizes {0,1,15,16,17,31,32,100} at sequence numbers 0 and 3, sampled to 16384 bytes, replay/out-of-order, all CBC padding lengths 0..255 built by the reference and each corrupted MAC/padding/length byte, GCM nonce = sequence counter; passive IV-uniqueness over all sessions.",
             "Trusted: /verif/ref TLCP record layer. Header length bytes are judged only in the black-box layer.",
             "DESIGN.md §5 C07"),
     "C15": ("fault_enumeration",
-            "scripted reference peer with one deviation per run and a differential oracle against a strict reference endpoint (GMSSL); live standard-TLS handshakes whose cleartext flight is rewritten message by message (TLS 1.0-1.2); configuration-variant targets; ServerHello-legality monitor on the wire; panic capture; logical deadlock breaker and closed-input watchdog",
+            "scripted reference peer with one deviation per run and a differential oracle against a strict reference endpoint (GMSSL); live standard-TLS handshakes whose cleartext flight is rewritten message by message (TLS 1.0-1.2); configuration-variant targets; compound (two-step) deviations; signature-scheme code-point sweep; HelloRequest after completion; Dial/DialWithDialer over loopback sockets against raw misbehaving peers; ServerHello-legality monitor on the wire; panic capture; logical deadlock breaker and closed-input watchdog",
             "A reference GM/T 0024 client/server plays an otherwise honest handshake against the gmtls client and the GMSSL-only, auto-switch and TLS-only servers with one deviation at one step: omit/repeat, every handshake type out of turn, CCS/alerts/application data/unknown record types/SSLv2 header at every step, oversize and empty records, every truncation, handshake-length and per-byte field perturbations, certificate-list variants (RSA, single, empty, garbage, P-256), end of stream after every step, ClientHello versions 0x0000..0x0400 x suite and compression lists. Whenever the strict reference endpoint refuses the same script, gmtls must return an error, never complete, never panic, and return once its input has ended.",
             "Trusted: strict reference endpoint as the definition of 'deviates'. Scripts it completes are not judged; no-op deviations are detected per run and not judged.",
             "DESIGN.md §5 C15"),
@@ -43,17 +43,17 @@ CHECKS = {
             "Trusted: Go runtime (recover, getrusage, MemStats). Bytes encoding a password-stretching iteration count are not mutated (exempt by the property).",
             "DESIGN.md §5 C18"),
     "C10": ("exploration",
-            "reference path validator over generator ground truth (no cryptography, none of gmsm's parser) compared with Verify on generated PKI topologies; every returned chain checked link by link; pools shared across queries, re-keyed CA and look-alike scenarios",
+            "reference path validator over generator ground truth (no cryptography, none of gmsm's parser) compared with Verify on generated PKI topologies; every returned chain checked link by link; pools shared across queries, re-keyed CA and look-alike scenarios, certificates re-issued in another extension order by the reference signer, forced cross-certified / usage-restricted / subdomain-constrained topologies",
             "Generates PKI topologies (roots, re-issued/cross-signed/looping intermediates, same-name impostor keys, leaves) that are valid except for 0-4 injected faults (expired, not yet valid, non-CA, no basic constraints, path length, key usage, name constraints, corrupted signature, impostor, EKU, critical extension, missing from pool) and queries (time incl. boundary instants, host classes, usages, pool insertion order) perturbed in one dimension; Verify must return a chain exactly when the reference finds one inside the region the statement determines (32 interpretation variants must agree), and every returned chain is checked against ground truth.",
             "Trusted: generator ground truth; gmsm CreateCertificate/ParseCertificate only as the means to materialise certificates (C09). Unspecified region listed in evidence assumptions.",
             "DESIGN.md §5 C10"),
     "C17": ("exploration",
-            "round-trip and wrong-holder monitors for enveloped data, ground-truth tamper monitors for signed data (library-built RSA and harness-built SM2 incl. reference-signed) and PKCS#12, per-byte substitution sweeps",
+            "round-trip and wrong-holder monitors for enveloped data, ground-truth tamper monitors for signed data (library-built RSA and harness-built SM2 incl. reference-signed) and PKCS#12 (SM2, RSA, ECDSA keys, CA chains, third-party fixture bundles, file helpers), DER length-boundary windows, per-byte substitution sweeps, held-results re-check",
             "Envelopes contents for 1..3 SM2 recipients (both content ciphers, both orderings) and RSA recipients and opens them with every recipient, a non-recipient, the wrong key, wrong ordering and a key of the other type; verifies signed data untouched and after content/attribute/signature/signer changes and after every single-byte substitution (must not verify unless content, signed attributes, signature integers and certified key are unchanged); PKCS#12 Encode/DecodeAll/ToPEM with password classes, wrong passwords and byte substitutions (error or same key and certificate).",
             "Trusted: ground-truth contents/keys, /verif/ref SM2 signing, encoding/asn1 mirror structures. CBC-enveloped content has no integrity protection: mutated CBC envelopes are only required not to panic.",
             "DESIGN.md §5 C17"),
     "C01": ("exploration",
-            "reference-model monitor on recorded sign/verify executions: nonce recovery k'=s(1+d)+rd, recomputation of r from GM/T 0003.2, nonce/reader-consumption and chunking-independence monitors, differential rejection against a reference verifier and strict DER reader (also through the x509 consumer), forged-digest class for the digest-taking verifier, in-place-edit histories",
+            "reference-model monitor on recorded sign/verify executions: nonce recovery k'=s(1+d)+rd, recomputation of r from GM/T 0003.2, nonce/reader-consumption and chunking-independence monitors, differential rejection against a reference verifier and strict DER reader (also through the x509 consumer), forged-digest class for the digest-taking verifier, in-place-edit histories, record-buffer layouts (inputs as sub-slices of one live buffer), dense message/ID length sweeps, held-results re-check",
             "Signs (key class x message length x ID class x nonce stream) through Sm2Sign and PrivateKey.Sign with a recording reader; for each signature the monitor recovers the nonce the signature implies and checks (r,s) is the pair the standard prescribes, that equal reader bytes give equal signatures, that different streams never share r or nonce, that all three verifiers accept; then every single-field perturbation of valid tuples (message, ID, key, r, s, DER manglings) is given to gmsm and to the reference: gmsm must reject whatever the standard rejects.",
             "Trusted: /verif/ref SM2 (GM/T 0003.5 signature example) and the harness's strict DER reader. Retry branches (r=0, r+k=n, s=0) unreachable by sampling.",
             "DESIGN.md §5 C01"),
@@ -73,12 +73,12 @@ CHECKS = {
             "Trusted: templates as ground truth, /verif/ref SM2 verify, encoding/asn1, crypto/x509 for RSA/ECDSA issuers.",
             "DESIGN.md §5 C09"),
     "C13": ("exploration",
-            "differential monitor against a reference GM/T 0003.3 key exchange for both roles + agreement monitor + hostile-ephemeral catalogue + constructed peer ephemerals and forced all-zero-key class",
+            "differential monitor against a reference GM/T 0003.3 key exchange for both roles + agreement monitor + hostile-ephemeral catalogue + constructed peer ephemerals (incl. structs naming another curve), forced all-zero-key class, dense identity-length sweep",
             "Runs KeyExchangeA/B over the standard's example, key/ephemeral classes with leading-zero coordinates (incl. searched short shared-point coordinates), identity lengths 0..8191 and key lengths 1..1024; K, S1, S2 of both parties must agree with each other and with the reference; off-curve or infinite peer ephemerals must yield an error.",
             "Trusted: /verif/ref key exchange (GM/T 0003.5 example K, S1, S2).",
             "DESIGN.md §5 C13"),
     "C14": ("exploration",
-            "round-trip monitors over every offered serialization with forced leading-zero classes, independent PBES2 decryption, wrong-password catalogue, accept-iff-match monitor for the TLS loaders",
+            "round-trip monitors over every offered serialization with forced leading-zero classes, independent PBES2 decryption, wrong-password catalogue, repeated reads, held-results re-check of every returned slice, accept-iff-match monitor for the TLS loaders over forced key classes",
             "Serialises keys (classes with 1..3 leading zero bytes in d, x, y, odd hex digits), signatures and ciphertexts through every offered form and back; decrypts gmsm's encrypted PKCS#8 independently (PBKDF2-HMAC-SHA1/AES-256-CBC); tries wrong passwords (one bit, case, length, empty, nil); feeds matching, mismatching and swapped PEM pairs (SM2, RSA, P-256; memory and files) to all six loaders.",
             "Trusted: /verif/ref public-key derivation, x/crypto/pbkdf2 + crypto/aes, crypto/x509. Passwords equal up to trailing zero bytes are the same PBKDF2-HMAC password and are skipped.",
             "DESIGN.md §5 C14"),
